@@ -355,7 +355,7 @@ func (hr *HarnessResult) merge(r *PathResult, witnessCap int) {
 		if len(hr.SamplePaths) < 3 {
 			hr.SamplePaths = append(hr.SamplePaths, r.trail)
 		}
-	case r.abort == "infeasible" || r.abort == "assume-false" || r.abort == "violation-end" || r.abort == "known-finding-end" || r.abort == "panic":
+	case r.abort == "infeasible" || r.abort == "assume-false" || r.abort == "violation-end" || r.abort == "known-finding-end" || r.abort == "panic" || r.abort == "nonterm":
 		hr.Aborts[r.abort]++
 	default:
 		hr.Inconcl[r.abort]++
@@ -403,6 +403,21 @@ func (sh *Shared) runPath(sol *Solver, hf *ssa.Function, name string, prefix []i
 							script, _ := ex.buildScript()
 							ex.recordViolation("panic", "no-panic", e.msg, script)
 							ex.res.violations[len(ex.res.violations)-1].Stack = e.stack
+							ex.res.violations[len(ex.res.violations)-1].Smt = append(sol.Transcript(), "(check-sat)")
+						}
+					}()
+				case nonTerm:
+					ex.res.abort = "nonterm"
+					ex.termLimit = 0
+					func() {
+						defer func() {
+							if r2 := recover(); r2 != nil {
+								ex.res.abort = fmt.Sprintf("SOLVER failure while extracting non-termination model: %v", r2)
+							}
+						}()
+						if sol.Check() == "sat" {
+							script, _ := ex.buildScript()
+							ex.recordViolation("nonterm", e.label, "the code under test did not finish within the step budget declared by the harness ("+e.label+")", script)
 							ex.res.violations[len(ex.res.violations)-1].Smt = append(sol.Transcript(), "(check-sat)")
 						}
 					}()
